@@ -199,7 +199,8 @@ class C15(core.Property):
               'Be': rng.choice([1, 1, 2, 4, sum(sizes) + 2]), 'seed': rng.choice([0, rng.randrange(2**31)]),
               'steps': rng.randrange(1, 3 * (sum(sizes) // bs + 2))}
     n = rng.choice([0, 1, 2, 3, 5])
-    return {'k': 'rep', 'base': rng.choice(['list', 'tuple', 'dict', 'str', 'bytes', 'gen', 'range', 'iter', 'map']),
+    return {'k': 'rep', 'base': rng.choice(['list', 'tuple', 'dict', 'str', 'bytes', 'gen', 'range', 'iter', 'map',
+                                                 'oneshot_iterable', 'reshuffling_iterable']),
             'n': n, 'ops': rng.randrange(0, 4 * (n + 1) + 2)}
 
   def gen_cases(self, rng, tier):
@@ -224,7 +225,8 @@ class C15(core.Property):
         yield {'items': batch}
     # RepeatableIterator: every base kind x small n x every number of next() calls
     reps = [{'k': 'rep', 'base': b, 'n': n, 'ops': 3 * (n + 1) + 1}
-            for b in ('list', 'tuple', 'dict', 'str', 'bytes', 'gen', 'range', 'iter', 'map') for n in (0, 1, 2, 4)]
+            for b in ('list', 'tuple', 'dict', 'str', 'bytes', 'gen', 'range', 'iter', 'map',
+                      'oneshot_iterable', 'reshuffling_iterable') for n in (0, 1, 2, 4)]
     yield {'items': reps}
     n_cases = 800 if tier == 'quick' else 9000
     for _ in range(n_cases):
@@ -586,6 +588,25 @@ class C15(core.Property):
           checks.append((r[0], r[1], f'client-level pass {p}'))
     return problems, checks, {'impl': obs, 'nb': len(obs)}
 
+  @staticmethod
+  def _odd_iterable(kind, vals):
+    """Iterables that are NOT iterators and whose own iteration is not repeatable: the first pass of a
+    RepeatableIterator must be buffered and replayed, never re-iterated from the base."""
+    class OneShot:      # e.g. a reader draining a queue: the second __iter__ finds nothing
+      def __init__(self):
+        self.left = list(vals)
+      def __iter__(self):
+        while self.left:
+          yield self.left.pop(0)
+    class Reshuffling:  # e.g. shuffle_repeat_batch(seed=None): every __iter__ gives another order
+      def __init__(self):
+        self.k = 0
+      def __iter__(self):
+        k = self.k
+        self.k += 1
+        return iter(vals[k % max(1, len(vals)):] + vals[:k % max(1, len(vals))])
+    return OneShot if kind == 'oneshot_iterable' else Reshuffling
+
   def _rep(self, it):
     n, ops = it['n'], it['ops']
     kind = it['base']
@@ -593,7 +614,9 @@ class C15(core.Property):
     mk = {'list': lambda: vals, 'tuple': lambda: tuple(vals), 'dict': lambda: {v: str(v) for v in vals},
           'str': lambda: ''.join(chr(97 + v) for v in vals), 'bytes': lambda: bytes(vals),
           'gen': lambda: (v for v in vals), 'range': lambda: range(n), 'iter': lambda: iter(vals),
-          'map': lambda: map(lambda v: v, vals)}[kind]
+          'map': lambda: map(lambda v: v, vals),
+          'oneshot_iterable': self._odd_iterable('oneshot_iterable', vals),
+          'reshuffling_iterable': self._odd_iterable('reshuffling_iterable', vals)}[kind]
     base = mk()
     canon = (lambda x: ord(x) - 97) if kind == 'str' else int
     ri = self.fdm.RepeatableIterator(base)
